@@ -457,7 +457,7 @@ pub fn run_plan(plan: &RunPlan, rng: &mut Rng, ctl: Option<&ShimCtl>, scratch: &
     let mut running: Option<usize> = None; // the thread that holds the baton
     let mut blocked: BTreeSet<usize> = BTreeSet::new();
     let mut guard = 0u64;
-    const BLOCK_TIMEOUT: std::time::Duration = std::time::Duration::from_secs(15);
+    const BLOCK_TIMEOUT: std::time::Duration = std::time::Duration::from_secs(45);
     loop {
         guard += 1;
         if guard > 400_000 {
@@ -1244,7 +1244,10 @@ pub fn run_tier(paths: &Paths, seed: u64, n: u64, nworkers: usize, selfcheck: u6
                     if a["plan_digest"] != v["plan_digest"] {
                         return Err(format!("tier L run {r} drew different plans in two executions: {} vs {}", a["plan_digest"], v["plan_digest"]));
                     }
-                    if a["digest"] != v["digest"] {
+                    // a run in which the scheduler found a thread silent for BLOCK_TIMEOUT (a real lock of the
+                    // code under test — or merely a heavily loaded machine) is not schedule-exact: not compared
+                    let inexact = a["blocked_seen"].as_u64().unwrap_or(0) > 0 || v["blocked_seen"].as_u64().unwrap_or(0) > 0;
+                    if a["digest"] != v["digest"] && !inexact {
                         // same plan, same seed, different observation: the output of a compilation depends on
                         // something the simulator does not own (e.g. what ran earlier in the worker process)
                         let sig = json!({"tier": "L", "invariant": "R1", "entry": Value::Null, "backend": Value::Null,
